@@ -136,6 +136,10 @@ def r2(ctx, rep):
     from .. import typeparser as tp
     for name in ('u64', 'i64', 'usize', 'isize'):
         outs = tp.outcomes_for(ctx, name)
+        if not outs:
+            # the evaluator finds no outcome at all for this name: the dispatch is written in a form it cannot follow — that is a
+            # limit of the evaluator, not an accepted type
+            raise core.Incomplete(f"R2: no outcome of the type parser could be derived for a path named `{name}` (the dispatch of RustType::try_from is written in a form the evaluator does not follow)")
         acc = [o for o in outs if not tp.is_err(o)]
         rep.check(bool(outs) and not acc, 'R2', f'try_from:{name}', 'rejected', f"RustType::try_from no longer rejects `{name}` (documented as unsupported: not representable in every target): it yields `{vt.show(acc[0])[:70] if acc else 'nothing'}`", {'file': f['file'], 'line': f['line']})
     top = [m for m in f['matches'] if any('Type::Tuple' in v for a in m['arms'] for v in a['variants'])]
